@@ -327,6 +327,22 @@ impl Node {
                 let t = tt(cx.time());
                 ctx.log(Ev::TimeRead { actor, time: t });
             }
+            Op::HoldUntilTimeout => {
+                // An overrunning computation: once a step time-out is in force, the handler
+                // keeps the step busy until the executor's timed wait has elapsed (the harness
+                // makes the first timed wait that blocks elapse). Bounded: if no timed wait
+                // ever blocks, the step overran without a `Timeout`.
+                if ctx.timeout_armed.load(Ordering::SeqCst) && !ctx.timeout_seen.load(Ordering::SeqCst) {
+                    let mut n = 0u32;
+                    while !ctx.timeout_seen.load(Ordering::SeqCst) && n < 20_000 {
+                        rt::yield_now();
+                        n += 1;
+                    }
+                    if !ctx.timeout_seen.load(Ordering::SeqCst) {
+                        ctx.violation("c11_timeout_not_raised", format!("node {} kept a step busy for 20000 scheduling rounds with a step time-out configured, and no timed wait of the executor ever blocked: the overrunning step cannot yield Timeout", self.idx));
+                    }
+                }
+            }
             Op::LeakWaker => {
                 // Clone first, lock after: a waker clone is a scheduling point and
                 // a std mutex must never be held across one.
@@ -816,7 +832,7 @@ pub fn build(case: &Arc<Case>, ctx: &Arc<ExecCtx>) -> Bench {
     if let Some(tol) = case.cfg.tolerance {
         sim_init = sim_init.set_clock_tolerance(Duration::from_nanos(tol));
     }
-    if case.cfg.timeout_set {
+    if case.cfg.timeout_set && !case.cfg.timeout_late {
         sim_init = sim_init.set_timeout(Duration::from_secs(3600));
     }
 
